@@ -198,6 +198,15 @@ theorem C07_adjacent_tokens_no_glue (t0 t : Tok) (hw : TokWF t0) (d c : Char) (h
     subst hc
     simpa [adjOK, hs] using hadj
 
+/-- `EXPRop1_out` prints the operand of NOT and of unary minus with `paren = 1` (regenerated from its `EXPR_out( eo->op1, … )` call),
+which is what the model's `exprFrags sh a true none` for `.neg a` / `.not a` assumes and what keeps `-` from being followed by a
+second `-`: `-( -x )`.  (Seed C07-e1 makes the argument depend on the operand and prints `--x`.) -/
+theorem C07_unary_operand_parenthesised :
+    ExpPrec.unaryOperandParen = "1"
+      ∧ ∀ a : Expr, exprFrags Shared.clean (.neg a) false none = [W "-"] ++ exprFrags Shared.clean a true none := by
+  refine ⟨rfl, fun a => ?_⟩
+  simp [exprFrags]
+
 /-- **Every fragment boundary of the expression printer is safe, statically** — the premise `K_run`/`K_runS` need and the
 answer to "can two adjacent printed tokens glue": in the fragment sequence exppp emits for an expression (`annotS`, equal to
 `exprFrags` fragment by fragment and carrying its tokens: first two conjuncts), wherever a fragment starts without a blank the
